@@ -21,7 +21,7 @@ Requirements for the change:
 1. It must still compile (no new compile errors; warnings are fine) and `cargo test --workspace --no-fail-fast --offline` in the worktree must still pass completely (all tests that passed before still pass).
 2. It must make the property false for some input/program/sequence - a genuine behavioural violation of the statement above, not a cosmetic change.
 3. Prefer a change that needs something SPECIFIC to manifest - an unusual input, a particular combination of language features, a multi-step sequence, a boundary value, or two cooperating edits that each look fine alone - NOT something ordinary use would expose at once. It should look like a plausible refactoring slip, optimisation or "simplification" a developer might really commit. Keep it small (typically 1-15 changed lines, in src/ only; do not edit tests, Cargo.toml or docs).{(' ' + variant) if variant else ''}
-4. Provide a DEMONSTRATION: a new integration test file (e.g. tests/seed_demo.rs using the public API of the crate `garble_lang`, see the existing files in tests/ for API usage) that FAILS with your change applied and PASSES on the original code. Verify both directions yourself (use `git stash` / `git checkout` on src/ to switch).
+4. Provide a DEMONSTRATION: a new integration test file (e.g. tests/seed_demo.rs using the public API of the crate `garble_lang`, see the existing files in tests/ for API usage) that FAILS with your change applied and PASSES on the original code. Verify both directions yourself. To switch between the original and your change do NOT use `git stash` (the stash is shared by all worktrees of this repository and other people use it): save your change with `git diff -- src > {wt}/mine.diff`, go back with `git checkout -- src`, and re-apply with `git apply {wt}/mine.diff`.
 
 Deliver, inside {wt}/seed_out/ :
   - patch.diff   : `git diff -- src` of your change only (must apply with `git apply` to the original tree)
